@@ -261,8 +261,30 @@ pub fn write_faults(seed: u64, idx: u64) -> Scenario {
     sc
 }
 
+/// request buffers as large as upload-accepting deployments configure them (16 000 ... 131 072
+/// bytes) and reflected header values that fill them: the response head grows to tens of kilobytes
+pub fn reflect_large(seed: u64, idx: u64) -> Scenario {
+    let (mut sc, mut rng) = base(seed, "reflect_large", idx);
+    sc.workers = rng.range(1, 2);
+    sc.request_size = *rng.pick(&[16000i64, 17000, 20000, 32768, 40000, 65536, 131072]);
+    let room = (sc.request_size as usize).saturating_sub(300);
+    for id in 0..rng.range(1, 2) {
+        let frac = *rng.pick(&[35usize, 45, 50, 60, 70, 90, 99]);
+        let len = room * frac / 100;
+        let list: String = (0..len / 8 + 1).map(|i| format!("x-hdr-{:02}", i % 100)).collect::<Vec<_>>().join(",")[..len.max(1)].to_string();
+        let (o, m, h) = match rng.below(4) {
+            0 => (format!("http://{}.example", "h".repeat(len)), "GET".to_string(), "X-A".to_string()),
+            1 | 2 => ("http://a.example".to_string(), "GET".to_string(), list),
+            _ => ("http://a.example".to_string(), "M".repeat(len), "X-A".to_string()),
+        };
+        sc.conns.push(Conn::simple(id, id as u32, req(*rng.pick(&["OPTIONS", "OPTIONS", "GET", "HEAD"]), *rng.pick(&["/file.txt", "/", "/missing"]), &[("Origin", &o), ("Access-Control-Request-Method", &m), ("Access-Control-Request-Headers", &h)], b""), "large_reflected_values"));
+    }
+    sc
+}
+
 pub fn plan(tier: Tier, seed: u64) -> Vec<Campaign> {
     let mut v = vec![
+        Campaign { name: "reflect_large", budget: match tier { Tier::Quick => Budget::Count(240), Tier::Thorough => Budget::Time(1) }, exhaustive: false, gen: Box::new(move |i| reflect_large(seed, i)) },
         Campaign { name: "short_write_enumeration", budget: Budget::Count(enumeration_size()), exhaustive: true, gen: Box::new(move |i| enumerated(seed, i)) },
         Campaign {
             name: "wellformed_and_reflection",
